@@ -1,5 +1,8 @@
 //! C02 – MultiProgress shows every member once, in logical order, below the log.
-//! Correspondence with model/Sys.v on multi-bar histories + the screen oracle (sysoracle.rs).
+//! Correspondence with model/Sys.v on multi-bar histories + the screen oracle (sysoracle.rs),
+//! plus a real-thread stress run (the interleaving clause is otherwise only proved GIVEN atomic steps).
+use indicatif::{MultiProgress, MultiProgressAlignment, ProgressBar, ProgressDrawTarget, ProgressStyle};
+use verif_harness::spy::{Spy, TOp};
 use verif_harness::sysoracle::*;
 use verif_harness::sysrun::*;
 use verif_harness::*;
@@ -8,15 +11,283 @@ fn main() {
     let a = args();
     let mut s = Session::new(&a, "C02", COQ_HEADER, COQ_CASE_TY, COQ_CHECKER);
     s.shard_size = 120;
-    s.rule = "histories over one MultiProgress on a recording terminal with 1..5 bars: add/insert/insert_from_back/insert_before/insert_after/remove/set_alignment/drop, tick/inc/set_position/set_message/set_length/reset/force_draw, finish*/abandon*/finish_using_style, println (multi and member), suspend, clear; every ProgressFinish; widths 1..40; gaps >= 1 ms (no limiter exhaustion here, see C03/C04); non-trivial = at least 2 bars added and 5 ops; distinct = distinct case text".into();
+    s.rule = "corpus (old witnesses D21, D22, bottom-alignment println, slot reuse, every insert variant) + random histories over one MultiProgress on a recording terminal with 1..5 bars: add/insert/insert_from_back/insert_before/insert_after/remove/set_alignment/drop in every order, tick/inc/set_position/set_message/set_length/reset/force_draw, finish*/abandon*/finish_using_style, println (multi and member), suspend, clear; every ProgressFinish; widths 1..40; both alignments; gaps >= 1 ms (limiter exhaustion: see C03); + 3-thread stress runs judged by the frame oracle only; non-trivial = at least 2 bars added and 5 ops; distinct = distinct case text".into();
     let mut r = Rng::new(a.seed);
     let cfg = GenCfg::default_multi();
     let n = if a.thorough { 6000 } else if a.extended { 3000 } else { 500 };
-    let mut cases = vec![];
+    let mut cases = corpus();
     for _ in 0..n {
         cases.push(gen_multi_case(&mut r, &cfg));
     }
     run_sys_cases(&mut s, &cases, &|c, _| c.ops.iter().filter(|(_, o)| matches!(o, Op::Insert(..))).count() >= 2 && c.ops.len() >= 5);
+    reclassify_bottom(&mut s, &cases);
+    let runs = if a.thorough { 60 } else { 12 };
+    for k in 0..runs {
+        thread_stress(&mut s, &mut r, k);
+    }
     s.finish();
 }
 
+/// sysoracle::classify() reports every failure of a history that ever selected bottom alignment
+/// under one lump class; split it into the narrow, decidable classes of the three defects found
+/// there (text below the padding: fixed by 951c29f; kept rows vs padding; empty-frame drift).
+pub fn reclassify_bottom(s: &mut Session, cases: &[Case]) {
+    const LUMP: &str = "bottom-alignment-shrunken-frame";
+    let mut moved: Vec<String> = vec![];
+    for f in s.failures.iter_mut().filter(|f| f.class == LUMP) {
+        let narrow = if f.detail.contains("the lines printed so far are") || f.detail.contains("the first rows of the screen are") {
+            "bottom-println-text-below-padding"
+        } else {
+            // replay: was there, under bottom alignment, a painted draw without any line while rows
+            // were erased (only padding written)?
+            let empty_frame = cases.iter().find(|c| describe(c) == f.case).map_or(false, |c| {
+                let obs = run_case(c);
+                let mut bottom = false;
+                let mut hit = false;
+                for ((_, op), o) in c.ops.iter().zip(obs.iter()) {
+                    if let Op::SetAlign(b) = op {
+                        bottom = *b;
+                    }
+                    let painted = o.emitted.iter().any(|x| *x == TOp::Flush);
+                    let cleared = o.emitted.iter().any(|x| *x == TOp::Clear);
+                    let wrote = o.emitted.iter().any(|x| matches!(x, TOp::Str(_)));
+                    let padded = o.emitted.iter().any(|x| matches!(x, TOp::Line(l) if l.is_empty()));
+                    if bottom && painted && cleared && padded && !wrote {
+                        hit = true;
+                    }
+                }
+                hit
+            });
+            if empty_frame {
+                "bottom-alignment-empty-frame-drift"
+            } else {
+                "bottom-alignment-kept-rows-misplaced"
+            }
+        };
+        f.class = narrow.to_string();
+        moved.push(narrow.to_string());
+    }
+    if !moved.is_empty() {
+        s.dist.remove(&format!("oracle_failure:{LUMP}"));
+        for m in moved {
+            s.count(&format!("oracle_failure:{m}"));
+        }
+    }
+}
+
+fn corpus() -> Vec<Case> {
+    let b = |tmpl: Vec<TPart>, fin| BarInit { len: Some(10), fin, tmpl, target: TInit::Hidden };
+    let t = |id: &str| vec![TPart::Lit(id.into()), TPart::Pos];
+    let mk = |w, bars: Vec<BarInit>, ops: Vec<(u64, Op)>| Case { w, h: 50, fail_at: vec![], fail_from: None, mp: TInit::Term(None), bars, ops };
+    let ms = 1_000_000u64;
+    vec![
+        // D21: remove(first) then drop of an already finished new head (fixed by dbf4cde)
+        mk(
+            20,
+            vec![b(t("A"), Fin::AndLeave), b(t("B"), Fin::AndLeave), b(t("C"), Fin::AndLeave)],
+            vec![
+                (0, Op::Insert(Loc::End, 0)),
+                (0, Op::Insert(Loc::End, 1)),
+                (0, Op::Insert(Loc::End, 2)),
+                (ms, Op::Tick(0)),
+                (2 * ms, Op::Tick(1)),
+                (3 * ms, Op::Tick(2)),
+                (4 * ms, Op::Finish(1, Fin::AndLeave)),
+                (5 * ms, Op::Remove(0)),
+                (6 * ms, Op::Drop(1)),
+                (7 * ms, Op::Tick(2)),
+                (8 * ms, Op::MPrintln("after".into())),
+                (9 * ms, Op::Tick(2)),
+            ],
+        ),
+        // every insert variant, clamped indices, slot reuse after removal
+        mk(
+            12,
+            vec![b(t("A"), Fin::AndLeave), b(t("B"), Fin::AndClear), b(t("C"), Fin::Abandon), b(t("D"), Fin::AndLeave), b(t("E"), Fin::AndLeave)],
+            vec![
+                (0, Op::Insert(Loc::End, 0)),
+                (ms, Op::Insert(Loc::Index(0), 1)),
+                (2 * ms, Op::Insert(Loc::FromBack(1), 2)),
+                (3 * ms, Op::Insert(Loc::After(1), 3)),
+                (4 * ms, Op::Tick(0)),
+                (5 * ms, Op::Tick(1)),
+                (6 * ms, Op::Tick(2)),
+                (7 * ms, Op::Tick(3)),
+                (8 * ms, Op::Remove(2)),
+                (9 * ms, Op::Insert(Loc::Before(0), 4)),
+                (10 * ms, Op::Tick(4)),
+                (11 * ms, Op::Insert(Loc::Index(99), 2)),
+                (12 * ms, Op::Tick(2)),
+                (13 * ms, Op::Remove(1)),
+                (14 * ms, Op::Insert(Loc::FromBack(99), 1)),
+                (15 * ms, Op::Tick(1)),
+                (16 * ms, Op::Drop(3)),
+                (17 * ms, Op::Drop(1)),
+                (18 * ms, Op::Drop(4)),
+                (19 * ms, Op::Tick(0)),
+            ],
+        ),
+        // bottom alignment: shrunken frame, then println of a member (fixed by 951c29f)
+        mk(
+            40,
+            vec![b(t("a"), Fin::AndClear), b(t("b"), Fin::AndClear), b(t("c"), Fin::AndClear)],
+            vec![
+                (0, Op::SetAlign(true)),
+                (0, Op::Insert(Loc::End, 0)),
+                (0, Op::Insert(Loc::End, 1)),
+                (0, Op::Insert(Loc::End, 2)),
+                (ms, Op::Tick(0)),
+                (2 * ms, Op::Tick(1)),
+                (3 * ms, Op::Tick(2)),
+                (4 * ms, Op::Remove(0)),
+                (5 * ms, Op::Finish(1, Fin::AndClear)),
+                (6 * ms, Op::Println(2, "x".into())),
+                (7 * ms, Op::Tick(2)),
+                (8 * ms, Op::MPrintln("y".into())),
+                (9 * ms, Op::Tick(2)),
+            ],
+        ),
+        // zombie behind the head waits, is reaped with Keep(rows) once it reaches the head, kept rows
+        // are erased by the next println
+        mk(
+            20,
+            vec![b(t("A"), Fin::AndLeave), b(t("B"), Fin::WithMessage("done".into())), b(t("C"), Fin::AndLeave)],
+            vec![
+                (0, Op::Insert(Loc::End, 0)),
+                (0, Op::Insert(Loc::End, 1)),
+                (0, Op::Insert(Loc::End, 2)),
+                (ms, Op::Tick(0)),
+                (2 * ms, Op::Drop(1)),
+                (3 * ms, Op::Tick(2)),
+                (4 * ms, Op::Drop(0)),
+                (5 * ms, Op::Tick(2)),
+                (6 * ms, Op::MPrintln("log".into())),
+                (7 * ms, Op::Tick(2)),
+                (8 * ms, Op::Drop(2)),
+            ],
+        ),
+    ]
+}
+
+/// Three real threads update three member bars concurrently (inc + set_message), a fourth thread
+/// prints log lines.  Every painted frame is reconstructed from the recorded TermLike calls; per
+/// bar the shown position must be a value the bar had (0..=N), never smaller than the one shown
+/// before, the bars appear in logical order below the log lines, and the last frame shows the
+/// final positions.  Not compared with the model (schedules are not replayable).
+fn thread_stress(s: &mut Session, r: &mut Rng, k: u64) {
+    use indicatif::verif_clock as vc;
+    vc::set_clock_ns(vc::ORIGIN_NS);
+    vc::set_auto_step_ns(200_000);
+    let w = 30u16;
+    let spy = Spy::new(w, 200);
+    let bottom = k % 3 == 2;
+    let n_inc: u64 = 20 + r.below(60);
+    let desc = format!("thread-stress run {k}: 3 updater threads x {n_inc} inc, 1 println thread, bottom={bottom}");
+    let res = catch(|| {
+        let mp = MultiProgress::with_draw_target(ProgressDrawTarget::term_like(Box::new(spy.clone())));
+        if bottom {
+            mp.set_alignment(MultiProgressAlignment::Bottom);
+        }
+        let bars: Vec<ProgressBar> = ["A", "B", "C"]
+            .iter()
+            .map(|id| {
+                let pb = mp.add(ProgressBar::new(n_inc));
+                pb.set_style(ProgressStyle::with_template(&format!("{id}{{pos}}")).unwrap());
+                pb
+            })
+            .collect();
+        let mut hs = vec![];
+        for pb in bars.iter().cloned() {
+            hs.push(std::thread::spawn(move || {
+                for _ in 0..n_inc {
+                    pb.inc(1);
+                }
+                pb.finish();
+            }));
+        }
+        let mp2 = mp.clone();
+        hs.push(std::thread::spawn(move || {
+            for i in 0..5 {
+                let _ = mp2.println(format!("log{i}"));
+            }
+        }));
+        for h in hs {
+            h.join().map_err(|_| "thread panicked".to_string())?;
+        }
+        drop(bars);
+        Ok::<(), String>(())
+    });
+    vc::set_auto_step_ns(0);
+    s.count("thread_stress_runs");
+    match res {
+        Err(e) | Ok(Err(e)) => {
+            s.fail("thread-stress-panic", e, desc.clone());
+            s.oracle_only(desc, true);
+            return;
+        }
+        Ok(Ok(())) => {}
+    }
+    let ops = spy.take();
+    let mut vt = Vt::new(w, 200);
+    let mut last = [0u64; 3];
+    let mut frames = 0u64;
+    let mut bad: Option<String> = None;
+    let mut start = 0;
+    for (i, o) in ops.iter().enumerate() {
+        if *o != TOp::Flush {
+            continue;
+        }
+        vt.feed(&ops[start..=i]);
+        start = i + 1;
+        frames += 1;
+        let rows = vt.rows();
+        let mut logs: Vec<&String> = vec![];
+        let mut seen: Vec<(usize, u64)> = vec![];
+        for row in rows.iter().filter(|x| !x.is_empty()) {
+            if row.starts_with("log") {
+                if !seen.is_empty() {
+                    bad = Some(format!("frame {frames}: log line {row:?} below a bar: {rows:?}"));
+                }
+                logs.push(row);
+            } else if let Some(b) = ["A", "B", "C"].iter().position(|id| row.starts_with(id)) {
+                match row[1..].parse::<u64>() {
+                    Ok(v) => seen.push((b, v)),
+                    Err(_) => bad = Some(format!("frame {frames}: garbled row {row:?}")),
+                }
+            } else {
+                bad = Some(format!("frame {frames}: foreign row {row:?} in {rows:?}"));
+            }
+        }
+        for (j, l) in logs.iter().enumerate() {
+            if **l != format!("log{j}") {
+                bad = Some(format!("frame {frames}: log lines out of order / duplicated: {logs:?}"));
+            }
+        }
+        if seen.windows(2).any(|p| p[0].0 >= p[1].0) {
+            bad = Some(format!("frame {frames}: bars out of order or shown twice: {seen:?}"));
+        }
+        for (b, v) in &seen {
+            if *v > n_inc || *v < last[*b] {
+                bad = Some(format!("frame {frames}: bar {b} shows {v} after {} (max {n_inc})", last[*b]));
+            }
+            last[*b] = *v;
+        }
+        if bad.is_some() {
+            break;
+        }
+    }
+    if bad.is_none() {
+        if last != [n_inc; 3] {
+            bad = Some(format!("last frame shows {last:?}, final positions are {n_inc}"));
+        }
+        let rows = vt.rows();
+        if (0..5).any(|j| !rows.iter().any(|x| *x == format!("log{j}"))) {
+            bad = Some(format!("a printed line is missing at the end: {rows:?}"));
+        }
+    }
+    s.count_n("thread_stress_frames", frames);
+    if let Some(d) = bad {
+        s.fail("thread-stress-frame", d, desc.clone());
+    }
+    s.oracle_only(desc, true);
+}
